@@ -244,7 +244,11 @@ def run(rep, tier, seed):
                     continue
                 db, df = sb["doc"]["templates"][g["template"]]["decl"], sf["doc"]["templates"][g["template"]]["decl"]
             vb = {v["name"]: v for v in db["vars"]}
-            vf = {v["name"]: v for v in df["vars"]}
+            # a fault can turn the faulted declaration into a second declaration of an earlier name (reported as a
+            # duplicate); the earlier declaration is the first one of that name
+            vf = {}
+            for v in df["vars"]:
+                vf.setdefault(v["name"], v)
             fb = {f["name"]: f for f in db["funcs"]}
             ff = {f["name"]: f for f in df["funcs"]}
             for nm in g["before"]:
